@@ -10,7 +10,7 @@ VERS = ["vanilla", "tbc", "wrath"]
 DIRS = ["server", "client"]
 
 
-def batches(scratch):
+def batches(scratch, tier="thorough"):
     mods = {
         "framing_spec": vlib.read(os.path.join(vlib.VERIF, "contracts/kani/framing_spec.rs")),
         "c02_framing": vlib.read(os.path.join(vlib.VERIF, "contracts/kani/c02_framing.rs")),
@@ -40,10 +40,13 @@ def batches(scratch):
                 functions=["%s::expect_%s_message_encryption" % (v, d)] + cipher)
     rc4 = ["wow_srp::wrath_header::inner_crypto::rc4::Rc4::apply_keystream", "wow_srp::wrath_header::inner_crypto::rc4::Rc4::pseudo_random_generation",
            "wow_srp::wrath_header::inner_crypto::InnerCrypto::apply"]
-    specs[P + "c05_rc4_mask_and_state_depend_on_state_and_length_only"] = dict(kind="complete", default_prop=PROP, functions=rc4)
-    specs[P + "c05_rc4_split_calls_compose"] = dict(kind="complete", default_prop=PROP, functions=rc4)
+    if tier == "thorough":
+        # contract of the *dependency* wow_srp (not part of /repo): discharged in the thorough tier (about 35 min of CBMC on
+        # a fully symbolic S-box); the quick tier uses it as an assumed contract
+        specs[P + "c05_rc4_mask_and_state_depend_on_state_and_length_only"] = dict(kind="complete", default_prop=PROP, functions=rc4)
+        specs[P + "c05_rc4_split_calls_compose"] = dict(kind="complete", default_prop=PROP, functions=rc4)
     specs[P + "c05_canary"] = dict(canary=True)
-    return [vlib.Batch("wow_world_messages", FEATURES, mods, specs, stubbing=True, jobs=12, harness_timeout=2400,
+    return [vlib.Batch("wow_world_messages", FEATURES, mods, specs, stubbing=True, jobs=12, harness_timeout=3600 if tier == "thorough" else 600,
                        pre_inject=srp.patch)]
 
 
@@ -61,9 +64,12 @@ def check(tier, seed):
     run = vlib.Run(PROP, tier, seed)
     scratch = vlib.make_scratch()
     try:
-        bs = batches(scratch)
+        bs = batches(scratch, tier)
         vlib.run_batches(run, scratch, bs)
         lemma(run, scratch)
+        if tier == "quick":
+            run.assumptions.append("quick tier: the RC4 keystream contract of the dependency wow_srp (mask and next state depend on state and length only; "
+                                   "split calls compose) is assumed; it is discharged on the real RC4 with a symbolic S-box in the thorough tier")
         run.trusted += ["Kani 0.68 / CBMC 6.11 / CaDiCaL; Verus 0.2026.09.13 / Z3",
                         "framing specification in contracts/kani/framing_spec.rs",
                         "wow_srp 0.7.0 key derivation (HMAC-SHA1, RC4 key schedule, drop-1024) is NOT executed: cipher halves start in an arbitrary "
